@@ -47,7 +47,7 @@ PROP = {
 }
 
 CLAIM = {
-  "text": "Source level (C06s): crc.go is TRANSLATED from the Go source on every run (harness/cmd/gosrc -> Gen/SrcPure.v, abstract syntax in the GoLite fragment with an executable semantics in Coq) and proved equal to the model for every state and byte string: the 256-entry table, init, the add loop (= bit-serial reference from 0xFFFF), value (low byte first) and isEqual (c06s_*). Model level: table-driven checksum = bit-serial CRC-16/MODBUS for every byte string; chunk independence; GF(2) linearity; acceptance iff trailer = CRC; every single-bit error, burst <= 16 bits (any length) and double-bit error (frames <= 256 bytes) has non-zero syndrome; every frame sent ends with that CRC; for EVERY request, valid reply and such corruption (followed by anything) the client call is not a success, whatever length the corrupted bytes make the receiver infer (c06_never_success); a mismatching CRC field is a bad-CRC error; after a rejection that triggers the resync flush the next exchange succeeds (c06_recovery), also in time: on timed peer streams everything that arrives until the end of the flush window (256 character times of silence + 500 us after the rejection) is discarded, what arrives later is left alone, and a two-call session recovers (c06_timed_flush, c06_timed_flush_any_link, c06_timed_recovery over Model/TimedSession.v). The unconditional recovery clause is refuted in Coq for the code as it is (c06_recovery_refuted = known finding F8). The complete 2^24-entry step function of the real code and corrupted-reply/clean-exchange pairs on the real RTU client are compared with the model on every run.",
+  "text": "Source level (C06s): crc.go is TRANSLATED from the Go source on every run (harness/cmd/gosrc -> Gen/SrcPure.v, abstract syntax in the GoLite fragment with an executable semantics in Coq) and proved equal to the model for every state and byte string: the 256-entry table, init, the add loop (= bit-serial reference from 0xFFFF), value (low byte first) and isEqual (c06s_*). Model level: table-driven checksum = bit-serial CRC-16/MODBUS for every byte string; chunk independence; GF(2) linearity; acceptance iff trailer = CRC; every single-bit error, burst <= 16 bits (any length) and double-bit error (frames <= 256 bytes) has non-zero syndrome; every frame sent ends with that CRC; for EVERY request, valid reply and such corruption (followed by anything) the client call is not a success, whatever length the corrupted bytes make the receiver infer (c06_never_success); a mismatching CRC field is a bad-CRC error; after a rejection that triggers the resync flush the next exchange succeeds (c06_recovery), also in time: on timed peer streams everything that arrives until the end of the flush window (256 character times of silence + 500 us after the rejection) is discarded, what arrives later is left alone, and a two-call session recovers (c06_timed_flush, c06_timed_flush_any_link, c06_timed_recovery over Model/TimedSession.v). The unconditional recovery clause is refuted in Coq for the code as it is (c06_recovery_refuted = known finding F8). The complete 2^24-entry step function of the real code and corrupted-reply/clean-exchange pairs on the real RTU client are compared with the model on every run. At source level (Properties/C06t.v): readRTUFrame / ExecuteRequest of rtu_transport.go as translated on every run are proved equal to the transport model, which on peer byte streams is read_rtu / rtu_read_response.",
   "note": "Finite facts are vm_compute sweeps over proved-complete enumerators (2^8, 2^16, 2^19, 64x255). F8 (next exchange fails after a corrupted reply whose prefix parses as a complete CRC-valid frame) is a recorded known finding, reported as KNOWN-FINDING, identified by the model-side tag for that input family. Trusted: kernel VM, extraction, harness, scripted connection, VerifCRC* hooks; for the source-level theorems the gosrc translator (syntactic) and the GoLite semantics of Model/GoLite.v (slices as values under the translator's aliasing discipline, capacity = length).",
   "technique": "Coq proof over the Go source of crc.go translated on every run (GoLite deep embedding, loop invariant) + Coq proof (finite sweeps lifted by forallb_forall, linearity, soundness of the RTU client) + exhaustive differential correspondence of the CRC step function + corrupted-reply correspondence",
 }
